@@ -333,6 +333,17 @@ def check_bosonic_dyne_conditioning():
                     bad(f"{label}: {backend} leaves q[0] with (<n>, <x>, <x_0.8>, <p>, <x^2>) = {np.round(got.real, 4).tolist()}, the conditional state has {np.round(want, 4).tolist()}")
 
 
+def check_gaussian_photon_sampler():
+    """gaussian photon counting / threshold detection: the moments handed to thewalrus' sampler are those of the measured modes in
+    the listed order (displaced, correlated 2- and 3-mode states, every ordered subset)"""
+    from native.c06_replay import check
+    for which in ("measure_fock", "measure_threshold"):
+        EVAL[0] += 1
+        msg = check(which)({})
+        if msg:
+            bad(msg)
+
+
 def check_fock_measure():
     cut = 3
     rng = np.random.RandomState(seed)
@@ -467,7 +478,7 @@ def check_collation():
 
 
 if __name__ == "__main__":
-    for f in (check_gaussian_rng, check_fock_homodyne_rng, check_bosonic_threshold_conditioning, check_bosonic_dyne_conditioning, check_fock_measure, check_cross_backend_postselect, check_collation):
+    for f in (check_gaussian_rng, check_fock_homodyne_rng, check_bosonic_threshold_conditioning, check_bosonic_dyne_conditioning, check_gaussian_photon_sampler, check_fock_measure, check_cross_backend_postselect, check_collation):
         try:
             f()
         except Exception:
